@@ -16,11 +16,17 @@ from ..corr import Case, drive
 from ..lang import N, P, Some, freeze
 from .C03 import _canon, _inv_eq, _same
 from .common import generic_replay, run_families, std_case
+from .hist import history_violation, replay_special
 
 ASSUMPTIONS = [
     "cache wrappers are built on a faithful store (see C20)",
     "recursive definitions are exercised to the data depth Python's recursion limit allows",
 ]
+from ..facts import effects as _effects  # noqa: E402
+_FX = _effects.obligation("C05")
+EXTRA_PROOF_FILES = [_FX[0]]
+TRUSTED_EXTRA = [_FX[1]]
+regenerate_facts = _FX[2]
 
 INT = ("Scalar", ("KInt",), None, [], [], [])
 STR = ("Scalar", ("KStr",), None, [], [], [])
@@ -64,6 +70,14 @@ def cases(tier: str, rng: random.Random) -> List[Case]:
             vs = [(rng.choice([ACCEPT_ALL, ACCEPT_ALL_T]) if ok else rng.choice([REJECT_ALL, REJECT_ALL_T])) for ok in pat]
             for m in ("sync", "async"):
                 out.append(std_case(("UnionV", vs), G.I(k), m, tag="a:patterns"))
+    # the ends of the longer unions (the typed constructor spells out 1..8 variants by hand):
+    # only the last variant accepts / nobody accepts / only the first accepts
+    for k in range(2, 9):
+        for pat in ([False] * (k - 1) + [True], [False] * k, [True] + [False] * (k - 1)):
+            vs = [(ACCEPT_ALL if ok else rng.choice([REJECT_ALL, REJECT_ALL_T, INT])) for ok in pat]
+            for _ in range(3):      # the builder picks typed / untyped at random
+                for m in ("sync", "async"):
+                    out.append(std_case(("UnionV", vs), G.S("s%d" % k), m, tag="a:ends"))
     # overlapping and payload-changing variants: order matters
     overl = [INT, STR, STRIP, UPPER, DEC, FLOAT, BOOL, ACCEPT_ALL, ("UserV", N(0), False), ("UserV", N(3), True)]
     for _ in range(60 if tier == "quick" else 600):
@@ -140,6 +154,9 @@ def oracle(c: Case) -> Optional[dict]:
     got = c.raw
     try:
         if kind == "UnionV":
+            if len(v.validators) != len(c.v[1]) or any(a is not b for a, b in zip(v.validators, getattr(c, "variant_objs", v.validators))):
+                return {"signature": "C05:union-variants-lost",
+                        "what": f"a union built from {len(c.v[1])} variants holds {len(v.validators)}: {v.validators!r}"}
             exp_calls = []
             errs = []
             winner = None
@@ -229,13 +246,31 @@ def check_result_map() -> List[dict]:
     inv = Invalid(TypeErr(int), "x", None)  # type: ignore
     for val in (1, "a", None, [1], {"k": 2}):
         f = lambda z: (z, "mapped")
-        r = Valid(val).map(f)
+        r0 = Valid(val)
+        r = r0.map(f)
         if not (type(r) is Valid and r.val == (val, "mapped")):
             bad.append({"signature": "C05:valid-map", "kind": "oracle", "what": f"Valid({val!r}).map(f) = {r!r}",
-                        "replay_case": None})
+                        "replay_case": {"direct": "result-map"}})
+        # the result that was mapped is still the result of the validation it came from
+        if r0.val is not val:
+            bad.append({"signature": "C05:valid-map-receiver", "kind": "oracle",
+                        "what": f"Valid({val!r}).map(f) changed the result it was called on into {r0!r}", "replay_case": {"direct": "result-map"}})
+    # ... in particular a result handed out by a cache wrapper: mapping it must not change what the
+    # wrapper answers next time
+    from ..build import Ctx
+    for mode in ("sync", "async"):
+        ctx = Ctx(G.STD_CLASSES, [])
+        cache = ctx.validator(("CacheV", INT))
+        first = _call(cache, mode, 7)
+        first.map(lambda z: "<%r>" % (z,))
+        again = _call(cache, mode, 7)
+        if not (type(again) is Valid and again.val == 7):
+            bad.append({"signature": "C05:valid-map-receiver", "kind": "oracle",
+                        "what": f"after mapping the result of cache(7), cache(7) ({mode}) returns {again!r}; the wrapped validator returns Valid(7)",
+                        "replay_case": {"direct": "result-map"}})
     if inv.map(lambda z: 1) is not inv:
         bad.append({"signature": "C05:invalid-map", "kind": "oracle", "what": "Invalid.map did not return the Invalid untouched",
-                    "replay_case": None})
+                    "replay_case": {"direct": "result-map"}})
     return bad
 
 
@@ -243,11 +278,70 @@ def nontrivial(c: Case) -> bool:
     return c.obs is not None and c.obs[0] in ("OValid", "OInvalid")
 
 
+INT_INC = ("UserV", N(0), False)
+USTRIP = ("UserV", N(3), True)
+WRAP_HISTORIES = [
+    (INT_INC, [G.I(1), G.I(2), G.I(3), G.S("x")]),            # payload of one input is another input
+    (USTRIP, [G.S(" a "), G.S("a"), G.S(" a"), G.I(0)]),
+    (DEC, [G.S("1.5"), G.D15, G.S("1.50"), G.I(1)]),
+    (("Scalar", ("KInt",), Some(("CoUser", N(2))), [], [], []), [G.TRUE, G.I(1), G.I(0), G.NONE]),
+    (("ListV", INT_INC, [], [], None), [("VList", [G.I(1)]), ("VList", [G.I(2)]), ("VList", [])]),
+]
+
+
+def wrapper_histories(tier: str, rng: random.Random):
+    """Wrappers stay transparent on a used instance: any history of calls, either style."""
+    bad, n = [], 0
+    for inner, alpha in WRAP_HISTORIES:
+        wraps = [("CacheV", inner), ("LazyV", N(0), False), ("OptionalV", ("NoneV", None), ("CacheV", inner)),
+                 ("UnionV", [("CacheV", inner), ("NoneV", None)]), ("MaybeV", ("CacheV", inner))]
+        for w in wraps:
+            seqs = list(itertools.product(alpha, repeat=2)) + rng.sample(list(itertools.product(alpha, repeat=3)), 6 if tier == "quick" else 40)
+            for xs in seqs:
+                ops = [(rng.choice(["sync", "async"]), (("VJust", x) if w[0] == "MaybeV" else x)) for x in xs]
+                n += 1
+                v = history_violation("C05", w, [inner], ops, what="wrapper no longer transparent: ")
+                if v and not any(b["signature"] == v["signature"] for b in bad):
+                    bad.append(v)
+    return bad, n
+
+
 def run(tier: str, rng: random.Random, proof_ok: bool) -> dict:
     rep = run_families("C05", cases(tier, rng), rng, oracle, nontrivial)
     rep["violations"] += check_result_map()
+    bad, n = wrapper_histories(tier, rng)
+    rep["violations"] += bad
+    rep["coverage"]["wrapper_histories_on_one_instance"] = n
     return rep
 
 
 def replay(path: str) -> int:
+    import json
+    rc = json.load(open(path)).get("replay_case")
+    if isinstance(rc, dict) and rc.get("direct") == "result-map":
+        bad = check_result_map()
+        for b in bad:
+            print("property violated:", b["what"])
+        print("property holds for Valid.map / Invalid.map" if not bad else "")
+        return 1 if bad else 0
+    r = replay_special(rc, "C05") if isinstance(rc, dict) else None
+    if r is not None:
+        return r
+    if isinstance(rc, dict) and rc.get("v", {}).get("c") == "UnionV":
+        # the builder picks the typed or the untyped constructor at random: try both
+        from ..corr import observe
+        from .common import case_from_json
+        for seed in range(8):
+            c = case_from_json(rc)
+            observe(c, random.Random(seed))
+            v = oracle(c)
+            if v:
+                print("property violated on this input:", v["what"])
+                return 1
+        print("property holds on this input (typed and untyped constructors)")
+        return 0
     return generic_replay(path, oracle)
+
+
+from ..facts import attach as _attach, typechecks as _typechecks  # noqa: E402
+_attach(globals(), _typechecks.obligation("C05"))
